@@ -7,12 +7,13 @@ import N0Verif.Val
     `n0dict_.to_json` / `n0list_.to_json` fix (`show_type=False, auto_quotes=False,
     __quotes='"', json_convention=True, show_item_count=False`), with all of
     `indent`, `pairs_in_one_line`, `compress`, `skip_empty_arrays`.
-    The model follows the code **with the fix patches C11-a, C11-c, C11-d, C11-f applied**
+    The model follows the code **with the fix patches C11-a, C11-c, C11-d, C11-f, C11-e applied**
     (JSON string escaping of values and keys through `json.dumps(…, ensure_ascii=False)`,
     no comma after the blanks of an absent first column in the pair layout,
     `skip_empty_arrays` really skips items/entries whose text is empty and `to_json`
     prints `{}` / `[]` when nothing is left, dict entries are read with `dict.__getitem__`
-    and not through the xpath resolver of `n0dict`).
+    and not through the xpath resolver of `n0dict`, the 111-level guard of the debug printer
+    (`{.......}` / `[.......]`) does not apply under `json_convention`).
   * `jsonDecode` — a reader following CPython's `json.loads` (C scanner): RFC 8259
     plus the three constants `NaN`, `Infinity`, `-Infinity` that `json.loads` accepts.
     Numbers keep their lexeme when they are floats (floats are opaque in `Val`).
@@ -173,6 +174,11 @@ def closeUp (o : Opts) (lvl : Nat) (l r : Char) (body : Str) : Str :=
 
 def dots (l r : Char) : Str := [l] ++ ".......".toList ++ [r]
 
+/-- `json_convention`: `to_json` hands its default `True` to `n0pretty`; this is the only value
+modelled.  It is kept as a name because the depth guard `indent_ < 111 or json_convention` of
+the fixed code (C11-e) reads it: the guard shortens debug prints, never a JSON export. -/
+def jsonConv : Bool := true
+
 mutual
 /-- `n0pretty(item, indent_ = lvl, …)` -/
 def pretty (o : Opts) : Nat → Val → Str
@@ -185,7 +191,7 @@ def pretty (o : Opts) : Nat → Val → Str
 def prettyItems (o : Opts) : Nat → List Val → Str → Str
   | _, [], acc => acc
   | lvl, x :: xs, acc =>
-    if lvl < 111 then
+    if lvl < 111 || jsonConv then
       let sub := pretty o (lvl + 1) x
       if o.skipEmpty && sub.isEmpty then prettyItems o lvl xs acc
       else prettyItems o lvl xs (joinItem o lvl false acc sub)
@@ -193,7 +199,7 @@ def prettyItems (o : Opts) : Nat → List Val → Str → Str
 def prettyKvs (o : Opts) : Nat → Bool → List (Str × Val) → Str → Str
   | _, _, [], acc => acc
   | lvl, cond, (k, v) :: kvs, acc =>
-    let sub := if lvl < 111 then pretty o (lvl + 1) v else dots '{' '}'
+    let sub := if lvl < 111 || jsonConv then pretty o (lvl + 1) v else dots '{' '}'
     if o.skipEmpty && sub.isEmpty then prettyKvs o lvl cond kvs acc
     else prettyKvs o lvl cond kvs (joinItem o lvl cond acc (quoted k ++ [':'] ++ sp o ++ sub))
 end
